@@ -20,9 +20,20 @@ for n in sorted(os.listdir(f'{ROOT}/seeded')):
     note='missed at first, check strengthened: '+m['history'].split(';')[0][:160] if 'history' in m else 'caught as built'
     srows.append(f"| {n} | {m['property']} | {m.get('needs_to_manifest','')} | {'yes ('+clause+')' if m.get('caught') else 'NO'} | {note} |")
 seeds="\n".join(srows)
+arows=["| property | level | phases (evaluations in the quick tier) | evaluations | distinct non-trivial | exhaustive sub-domains | replays | wall (s, 16 cores) |","|----|----|----|----|----|----|----|----|"]
+for i in range(1,21):
+    ep=f'{ROOT}/evidence/C{i:02d}.json'
+    if not os.path.exists(ep): continue
+    e=json.load(open(ep)); c=e['coverage']
+    if e.get('tier')!='quick': continue
+    ph=', '.join(f"{x['phase']} ({x['evaluations']})" for x in c['phases'])
+    ex='; '.join(c.get('exhaustive_subdomains') or []) or '-'
+    arows.append(f"| {e['property_id']} | {e['level']} | {ph} | {c['evaluations']} | {c['distinct_nontrivial']} | {ex} | {c['replayed']} | {e['wall_s']} |")
+asbuilt="\n".join(arows)
 p=f'{ROOT}/DESIGN.md'
 s=open(p).read()
 s=re.sub(r'<!-- BEGIN:findings -->.*?<!-- END:findings -->', '<!-- BEGIN:findings -->\n'+findings+'\n<!-- END:findings -->', s, flags=re.S)
 s=re.sub(r'<!-- BEGIN:seeds -->.*?<!-- END:seeds -->', '<!-- BEGIN:seeds -->\n'+seeds+'\n<!-- END:seeds -->', s, flags=re.S)
+s=re.sub(r'<!-- BEGIN:asbuilt -->.*?<!-- END:asbuilt -->', lambda m: '<!-- BEGIN:asbuilt -->\n'+asbuilt+'\n<!-- END:asbuilt -->', s, flags=re.S)
 open(p,'w').write(s)
 print('findings:',len(kf),'seeds:',len(srows)-2)
